@@ -22,11 +22,34 @@ def extrapolate_selection(chk, lib, rule, flags=(False, True)):
     if b is None:
         return
     n = 0
+    NEW, SETE, SETB = CS + '::new', CS + '::extrapolate', CS + '::boundary'
+    for p in (NEW, SETE, SETB):
+        if anchor(chk, lib, p, rule) is None:
+            return
+
+    def configured(flag, bc, order):
+        """the strategy builder as a user obtains it: new() followed by the public setters in the given order"""
+        it = Interp(lib, BuildModel())
+        s = deref_all(it.call_norm(NEW, []))
+        fields = {'0': Obj('bounds')} if bc == 'Individual' else {}
+        for step in order:
+            if step == 'e':
+                s = deref_all(it.call_norm(SETE, [s, B(flag)]))
+            elif step == 'E':       # toggled: the opposite value first, then the wanted one
+                s = deref_all(it.call_norm(SETE, [s, B(not flag)]))
+                s = deref_all(it.call_norm(SETE, [s, B(flag)]))
+            else:
+                s = deref_all(it.call_norm(SETB, [s, Enum(BC, bc, fields)]))
+        return s
     for flag in flags:
         for bc in ('NotAKnot', 'Natural', 'Clamped', 'Periodic', 'Individual'):
+          for order in ('eb', 'be', 'Eb', 'bE'):
             want = 'No' if not flag else ('Periodic' if bc == 'Periodic' else 'Yes')
-            fields = {'0': Obj('bounds')} if bc == 'Individual' else {}
-            s = Enum(CS, 'CubicSpline', {'extrapolate': B(flag), 'boundary': Enum(BC, bc, fields)})
+            try:
+                s = configured(flag, bc, order)
+            except (Unsupported, Diverge) as ex:
+                chk.ob(rule, "CubicSpline::new / extrapolate / boundary are plain configuration steps: %s" % ex, False, ex.where, 'setters-%s-%s-%s' % (flag, bc, order))
+                continue
             try:
                 out = deref_all(Interp(lib, BuildModel()).call_def(b['def'], [s, Ref(ValPlace(Obj('axis', name='x'))),
                                                                               Ref(ValPlace(Obj('data', name='y', lead=1, idx=[])))]))
@@ -36,10 +59,10 @@ def extrapolate_selection(chk, lib, rule, flags=(False, True)):
                     ex = st.fields.get('extrapolate') if isinstance(st, Enum) else None
                     got = ex.variant if isinstance(ex, Enum) else None
                 n += 1
-                chk.ob(rule, "CubicSpline::build with extrapolate=%s, boundary=%s selects Extrapolate::%s (got %s)" % (flag, bc, want, got),
-                       got == want, b['span'], 'select-%s-%s' % (flag, bc))
+                chk.ob(rule, "CubicSpline configured (setter order %s) with extrapolate=%s, boundary=%s: build selects Extrapolate::%s (got %s)" % (order, flag, bc, want, got),
+                       got == want, b['span'], 'select-%s-%s-%s' % (flag, bc, order))
             except (Unsupported, Diverge) as ex:
-                chk.ob(rule, "CubicSpline::build is a decision over (flag, boundary kind): %s" % ex, False, ex.where, 'select-%s-%s' % (flag, bc))
+                chk.ob(rule, "CubicSpline::build is a decision over (flag, boundary kind): %s" % ex, False, ex.where, 'select-%s-%s-%s' % (flag, bc, order))
     return n
 
 
@@ -110,7 +133,7 @@ def run(chk):
     chk.note('kernel_runs_compared', len(ref))
     chk.floor('R6.1', 'kernel runs compared', len(ref), 8 + 13 + 34)
     n4 = extrapolate_selection(chk, lib, 'R6.4') or 0
-    chk.floor('R6.4', 'selection table entries', n4, 10)
+    chk.floor('R6.4', 'selection table entries', n4, 40)
     chk.sample({"linear lane expression (all flags, all finite scenarios)": str(base_l[0])})
     chk.exhaustive = True
     chk.explanation = ("For each strategy the lane expression and the lookup argument were extracted for every (flag, finite "
